@@ -650,6 +650,21 @@ fn resolve(raw: Vec<RawNode>, root_sel: Vec<u16>, shape: u8, profile: &ForestPro
                         for t in &profile.exclude_unknown_types {
                             types.retain(|x| x != t);
                         }
+                        // weight the types whose behaviour depends on context
+                        for t in [
+                            VariantType::SharedString,
+                            VariantType::SharedString,
+                            VariantType::Ref,
+                            VariantType::Ref,
+                            VariantType::String,
+                            VariantType::CFrame,
+                            VariantType::Float32,
+                            VariantType::Float64,
+                        ] {
+                            if types.contains(&t) {
+                                types.push(t);
+                            }
+                        }
                         types[(rp.seed as usize >> 3) % types.len()]
                     });
                 let val = value_from_seed(ty, profile.vals, rp.seed);
